@@ -214,23 +214,28 @@ def run_case(ctx, fx, rowspec, cmd, verbose, qual, target_mod="mod"):
     if got["out"] != ref["out"] or got["file"] != ref["file"]:
         return ctx.fail("C10/output-differs-from-decodable-rows-alone", spec,
                         f"`{cmd} {target}`: with stale rows\n{got['out'][:600]}\nvalid rows alone\n{ref['out'][:600]}")
+    # stderr: the lines beyond what the valid rows alone produce. The wording is not part of the property: without -v exactly
+    # one extra line that states the number of skipped rows, with -v exactly one extra line per skipped row; when nothing is
+    # decodable one more line that says so.
+    import re
     err_lines = [l for l in got["err"].splitlines() if l.strip()]
     ref_lines = [l for l in ref["err"].splitlines() if l.strip()]
-    warn = [l for l in err_lines if l.startswith("WARNING: Failed decoding trace:")]
-    count = [l for l in err_lines if "traces failed to decode" in l]
-    other = [l for l in err_lines if l not in warn and l not in count]
-    if verbose:
-        if len(warn) != n_stale or count:
-            return ctx.fail("C10/skipped-traces-misreported", spec, f"-v: {len(warn)} warnings, {n_stale} stale rows selected; stderr: {got['err'][:500]}")
-    else:
-        want = [f"{n_stale} traces failed to decode; use -v for details"] if n_stale else []
-        if count != want or warn:
-            return ctx.fail("C10/skipped-traces-misreported", spec, f"stderr {err_lines} expected {want}")
-    if other != ref_lines:
-        return ctx.fail("C10/unexpected-error-output", spec, f"stderr {other} vs {ref_lines} on valid rows alone")
-    if n_valid == 0:
-        if got["out"].strip() or not any("No traces found" in l for l in err_lines):
+    extra = list(err_lines)
+    for l in ref_lines:
+        if l in extra:
+            extra.remove(l)
+    no_traces = [l for l in err_lines if re.search(r"no traces", l, re.I)]
+    if n_valid == 0 and n_stale:
+        if got["out"].strip() or not no_traces:
             return ctx.fail("C10/no-traces-message-missing", spec, f"nothing decodable, stdout={got['out'][:100]!r} stderr={got['err'][:300]!r}")
+        extra = [l for l in extra if l not in no_traces]
+    if verbose:
+        if len(extra) != n_stale:
+            return ctx.fail("C10/skipped-traces-misreported", spec, f"-v: {len(extra)} extra stderr lines, {n_stale} stale rows selected; stderr: {got['err'][:500]}")
+    else:
+        ok = (not extra) if n_stale == 0 else (len(extra) == 1 and re.search(r"(?<!\d)%d(?!\d)" % n_stale, extra[0]) is not None)
+        if not ok:
+            return ctx.fail("C10/skipped-traces-misreported", spec, f"{n_stale} stale rows selected but stderr says {extra}")
 
 
 def gone_module_cases(ctx, fx):
@@ -246,9 +251,12 @@ def gone_module_cases(ctx, fx):
             if got["exc"] is not None:
                 ctx.fail(f"C10/command-crashes:{type(got['exc']).__name__}", spec, f"stub {module}: {got['exc']!r}", raise_=False)
                 continue
+            import re
             lines = [l for l in got["err"].splitlines() if l.strip()]
-            ok_count = (len([l for l in lines if l.startswith("WARNING: Failed decoding trace:")]) == 2) if verbose else ("2 traces failed to decode; use -v for details" in lines)
-            if got["rc"] != 0 or got["out"].strip() or not ok_count or not any("No traces found" in l for l in lines):
+            nt_lines = [l for l in lines if re.search(r"no traces", l, re.I)]
+            rest = [l for l in lines if l not in nt_lines]
+            ok_count = (len(rest) == 2) if verbose else (len(rest) == 1 and re.search(r"(?<!\d)2(?!\d)", rest[0]) is not None)
+            if got["rc"] != 0 or got["out"].strip() or not ok_count or not nt_lines:
                 ctx.fail("C10/no-traces-message-missing", spec, f"rc={got['rc']} out={got['out'][:80]!r} err={lines}", raise_=False)
     # valid rows in a module three packages deep next to stale ones
     deep = fx.pkg + ".sub.deeper.deep"
@@ -259,7 +267,8 @@ def gone_module_cases(ctx, fx):
     fx.write_db([rows[0], rows[3]])
     ref = fx.command("stub", deep, False)
     ctx.case(["DEEP"], True, ["deep-module"])
-    if got["exc"] is not None or got["out"] != ref["out"] or "2 traces failed to decode" not in got["err"]:
+    import re
+    if got["exc"] is not None or got["out"] != ref["out"] or not re.search(r"(?<!\d)2(?!\d)", got["err"]):
         ctx.fail("C10/output-differs-from-decodable-rows-alone", ["DEEP"], f"deep module: exc={got['exc']!r} out={got['out'][:300]!r} err={got['err'][:200]!r}", raise_=False)
 
 
